@@ -717,10 +717,14 @@ func ConstSets(v ssa.Value) map[*ssa.BasicBlock]map[int64]bool {
 				for k := range f {
 					if has {
 						keepOnly := (i == 0) == cm.eqTrue
-						if keepOnly && k != cm.k && k != UnknownConst {
-							continue
-						}
-						if !keepOnly && k == cm.k {
+						if keepOnly {
+							// on the equal edge the value IS the constant compared with (also when it came
+							// from a non-constant leaf)
+							if k != cm.k && k != UnknownConst {
+								continue
+							}
+							k = cm.k
+						} else if k == cm.k {
 							continue
 						}
 					}
